@@ -161,6 +161,12 @@ Proof.
       * destruct (put_new_ok _ _ _ Hkv Hpos Hg Hp) as (_ & _ & _ & _ & Hl').
         eapply all_live_upd; eauto; try congruence; try (intros x Lx; rewrite Hl'; auto).
       * eapply all_live_upd; eauto; congruence.
+  - (* LCancel *)
+    inv_nth2 H c Hc. destruct (c_w c); try discriminate.
+    assert (Hin : In c (s_cs s)) by (eapply nth_error_In; eauto).
+    unfold with_c in H; inversion H; subst s'; clear H.
+    intros y Hy Hnd'; simpl in *; apply In_upd in Hy; destruct Hy as [->|Hy]; [|apply Hal; auto].
+    simpl in *; apply Hal; auto.
 Qed.
 
 Lemma pc_at_upd : forall s kv' j c' i,
@@ -236,6 +242,10 @@ Proof.
     destruct (Nat.eqb i i0) eqn:E; [apply Nat.eqb_eq in E; subst; rewrite (Hpc c Hc) in P; discriminate|].
     destruct (e_put_if_absent Z.eqb (s_kv s) (c_lease c) tt (c_lease c)) as [[b kv']|];
       unfold with_c in H; inversion H; subst s'; rewrite pc_at_upd by auto; rewrite E; auto.
+  - destruct (c_w c); try discriminate.
+    unfold with_c in H; inversion H; subst s';
+      rewrite pc_at_upd by auto; destruct (Nat.eqb i i0) eqn:E; auto;
+      apply Nat.eqb_eq in E; subst; simpl; rewrite <- (Hpc c Hc); auto.
 Qed.
 
 Lemma okl_not_exit : forall ins l i, okl ins l -> In i ins -> l <> LExit i.
@@ -309,15 +319,16 @@ Proof.
   - eapply path_one; eauto. simpl; auto.
 Qed.
 
+Lemma try_step_path : forall ins s l,
+  okl ins l -> path ins s (match step s l with Some x => x | None => s end).
+Proof. intros ins s l H. destruct (step s l) eqn:E; [eapply path_one; eauto|constructor]. Qed.
+
 Lemma settle_ctx_path : forall ins s i, path ins s (settle_ctx s i).
 Proof.
   intros ins s i. unfold settle_ctx.
-  destruct (step s (LKeepAlive i)) as [s1|] eqn:E1.
-  - destruct (step s1 (LWatch i)) as [s2|] eqn:E2.
-    + eapply path_step; [eauto|simpl; auto|]. eapply path_one; eauto. simpl; auto.
-    + eapply path_one; eauto. simpl; auto.
-  - destruct (step s (LWatch i)) as [s2|] eqn:E2; [|constructor].
-    eapply path_one; eauto. simpl; auto.
+  eapply path_trans; [apply (try_step_path ins s (LKeepAlive i)); simpl; auto|].
+  eapply path_trans; [apply (try_step_path ins _ (LWatch i)); simpl; auto|].
+  apply (try_step_path ins _ (LCancel i)); simpl; auto.
 Qed.
 
 Lemma pinv_weaken : forall ins ins' s, (forall i, In i ins' -> In i ins) -> pinv ins s -> pinv ins' s.
